@@ -1,4 +1,5 @@
 from vf.props.common import *
+from vf.props.e4cfg import *
 EXPLANATION = ('cbmc over the real stage kernels (cr-core.c via cr32.c / cr64.c: poly-fir.h stdPrecCore + highPrecCore, poly-fir0.h, half-fir.h, '
                'cubic_stage_fn): one call from ANY clock value in range: the virtual read position consumed*unit + at advances by exactly '
                'step per output frame - 32.32 clock, 32.32+64 clock incl. the carry between the halves (exact 128-bit identity), rational '
@@ -9,4 +10,9 @@ ASSUMPTIONS = ['the planner-side set-up of at/step/preload in _soxr_init (cr.c:4
                'not for all ratios']
 
 def obligations(tier):
-    return [o for o in kern_set(tier) if 'oirtight' not in o.name]
+    obls = [o for o in kern_set(tier) if 'oirtight' not in o.name]
+    # alignment of the first output frame / zero net delay for the plans of the list: hybrid E4 (measured whole-conversion prototype of the
+    # real library, exact arithmetic: peak at the input instant, symmetric about it, unit gain per output phase)
+    obls += [e2e_obl(c, ('sym', 'gain'), tier) for c in align_cfgs(tier)]
+    obls += [e2e_obl(c, ('sym',), tier) for c in e2e_cfgs(tier)[:8]]
+    return obls
